@@ -26,7 +26,11 @@ RULE = ('waveform recipes (nesting <= 4) over all classes (table hold/linear/jum
         '"end" (on + t=duration); plus malformed grids (unsorted, negative, beyond the end, unknown channel, empty), '
         'malformed recipes (channel clashes, duration mismatches, bad tables, count 0), equality/hash pairs and call '
         'histories (same array object reused, output array supplied or not, interleaved channels, times changed in '
-        'place; shadowed linear outputs after a parallel constant).  Decimal stream (kind dec): durations k/10, k/3, k/5, k/6, k/7, k/100 '
+        'place; shadowed linear outputs after a parallel constant).  Round 3 families: grids that leave whole repetitions / '
+        'sequence parts without a sample (single late time, one middle piece, every other piece ...), the same through ONE reused '
+        'output array; equal sub-recipes built as ONE shared object; histories about array identity (temporaries, a slot freed and '
+        're-allocated at the same address, reused output arrays, read-only queries, strided / read-only arrays); coinciding channel '
+        'names (linear swap / rotation / x -> 2x, a channel called t); empty dicts / empty channel sets.  Decimal stream (kind dec): durations k/10, k/3, k/5, k/6, k/7, k/100 '
         '(exact TimeType), repetitions 3..10, grid on every junction as correctly rounded doubles, tolerance 2^-30.  '
         'Non-trivial = the recipe has a composite node (not a bare leaf); distinct = canonical JSON.')
 TRUSTED = [
@@ -45,29 +49,32 @@ ASSUMPTIONS = [
     'repetition counts are small positive integers in generated cases (the theorems are for all counts)',
 ]
 MANIFEST = {
-    'level_text': 'Proof: 63 unbounded theorems over an executable Coq model of waveforms.py: vectorised sampler = pointwise '
+    'level_text': 'Proof: 75 unbounded theorems over an executable Coq model of waveforms.py: vectorised sampler = pointwise '
                   'meaning on every sorted grid (all 11 classes); constant_value sound on [0,duration) for all classes; '
                   '__eq__ => same behaviour; reversed()/double reversal laws; totality REFUTED on the unchanged code '
                   '(sequence/repetition at t=duration, reversal around them, chained parallel+linear KeyError) and proved under '
-                  'executable guards; every optimising constructor proved to sample like the plain composite: from_mapping, '
-                  'from_repetition_count, from_functor, from_to_reverse, from_sequence (incl. flattening), from_operator, '
-                  'from_parallel, from_transformation for ALL transformations (restricted = complete evaluation of linear '
-                  'chains; guards: constructor shape, no KeyError), from_table incl. de-duplication (every table on '
-                  '[0,duration), closed interval under the guard final_triple = false, the refuted class); history independence '
-                  '(no transforming nodes: any history; any transformations: arrays not mutated, no linear output shadowing a '
-                  'forwarded channel - refuted without that guard); code meaning = DESIGN 4.4 denotation for leaf-only reversal '
-                  'incl. transformations, and for reversal anywhere (mirror law) away from the junctions an executable parity '
-                  'guard excludes. Not proved (only tested through the denotational oracle): the composed statement over '
-                  'construction recipes with transformation / reversal / get_subset nodes (refuted unguarded at t=0 below reversed '
-                  'sequences; every single constructor incl. the well-formedness of its result is proved, and the composed '
-                  'statement is proved for all recipes without such nodes). get_subset_for_channels is proved for all classes under a guard that '
-                  'excludes ReversedWaveform at its local time 0 (refuted there), '
-                  'mirror law with transformations below a reversal. The model (incl. a state machine for the '
-                  'TransformingWaveform cache) is tied to /repo by an exact correspondence check, an independent denotation '
-                  '(DESIGN 4.4) on generated waveform trees, and a decimal-duration stream compared under tolerance 2^-30.',
+                  'executable guards; every optimising constructor proved to sample like the plain composite and to return a '
+                  'well-formed waveform (from_mapping, from_repetition_count, from_functor, from_to_reverse, from_sequence incl. '
+                  'flattening, from_operator, from_parallel, from_transformation for ALL transformations, from_table incl. '
+                  'de-duplication); the COMPOSED statement over construction recipes (optimising or plain constructor at every '
+                  'node) proved for every recipe without get_subset_for_channels nodes: transformations of any kind and reversal '
+                  '(ReversedWaveform, from_to_reverse, reversed()) anywhere, under executable guards (constructor shape and '
+                  'duplicate-free keys of every transformation, no KeyError in the plain composite, and a time guard that excludes '
+                  'exactly local time 0 of a reversal = the class refuted without it), plus get_subset at the root; history '
+                  'independence (no transforming nodes: any history; any transformations: arrays not mutated, no linear output '
+                  'shadowing a forwarded channel - refuted without that guard); code meaning = DESIGN 4.4 denotation for reversal '
+                  'ANYWHERE together with transformations of ANY kind (mirror law incl. time dependent transformations below a '
+                  'reversal) away from the junctions an executable parity guard excludes. Not proved (only tested through the '
+                  'denotational oracle): the composed statement for recipes with get_subset_for_channels nodes below other nodes '
+                  '(the single step is proved for all classes under a guard that excludes ReversedWaveform at its local time 0). '
+                  'The model (incl. a state machine for the TransformingWaveform cache) is tied to /repo by an exact '
+                  'correspondence check, an independent denotation (DESIGN 4.4) on generated waveform trees incl. families for '
+                  'sparse grids, shared objects, re-allocated time arrays, reused output arrays and coinciding channel names, '
+                  'and a decimal-duration stream compared under tolerance 2^-30.',
     'level_note': 'Trusted: Coq kernel, numpy/sympy semantics as modelled, harness (py_build, printers), Python hash. Float '
-                  'rounding not modelled (dyadic inputs exact; decimal stream under a declared tolerance, counted apart). '
-                  '8 known findings (2 more were repaired in /repo in round 1).',
+                  'rounding not modelled (dyadic inputs exact; decimal stream under a declared tolerance, counted apart; its '
+                  'known finding is classified by an exact reference and excuses only samples on an inner table entry). '
+                  '8 known findings (3 more were repaired in /repo: 01efa2c, 33916af, 55554c3).',
     'technique': 'Coq proof over a hand-written model + correspondence check + denotational oracle',
     'design_ref': 'DESIGN.md §5 C08, §4.3, §4.4, Appendix C, D4',
 }
@@ -1967,5 +1974,258 @@ def py_spec(case, obs):
     return None
 
 
+# ---------------------------------------------------------------------------------------------------------------------
+# shrinking and the search for an input on which the PROPERTY fails (oracle: check_spec in Coq + py_spec; never the model)
+
+WF_KINDS = ('table', 'const', 'func', 'seq', 'multi', 'rep', 'trans', 'subset', 'getsubset', 'arith', 'functor', 'neg', 'rev',
+            'fromrev', 'reversed')
+
+
+def _children(r):
+    k = r[0]
+    if k in ('seq', 'multi'):
+        return [(('l', i), x) for i, x in enumerate(r[2])]
+    if k in ('rep', 'trans', 'functor'):
+        return [((2,), r[2])]
+    if k == 'arith':
+        return [((2,), r[2]), ((4,), r[4])]
+    if k in ('subset', 'getsubset', 'neg', 'rev', 'fromrev', 'reversed'):
+        return [((1,), r[1])]
+    return []
+
+
+def _with_child(r, pos, x):
+    r = list(r)
+    if pos[0] == 'l':
+        r[2] = list(r[2])
+        r[2][pos[1]] = x
+    else:
+        r[pos[0]] = x
+    return r
+
+
+def _reductions(r, depth=0):
+    """smaller recipes: a child instead of the node, a simpler node, the node with one child reduced"""
+    k = r[0]
+    out = [x for _, x in _children(r)]
+    if k in ('seq', 'multi'):
+        if len(r[2]) > 2:
+            out += [[k, r[1], r[2][:i] + r[2][i + 1:]] for i in range(len(r[2]))]
+        if r[1]:
+            out.append([k, False, r[2]])
+    if k == 'rep':
+        out += [['rep', r[1], r[2], n] for n in sorted({1, 2, r[3] - 1}) if 1 <= n < r[3]]
+    if k in ('rep', 'trans', 'functor', 'arith', 'table') and r[1]:
+        out.append([k, False] + list(r[2:]))
+    if k == 'table' and len(r[3]) > 2:
+        for i in range(1, len(r[3])):
+            ent = r[3][:i] + r[3][i + 1:]
+            # keep the generators' exactness precondition: linear segments have power-of-two lengths (in units of 1/4)
+            if all(e[2] != 'l' or _pow2_quarters(F(e[0]) - F(p[0])) for p, e in zip(ent, ent[1:])):
+                out.append(['table', r[1], r[2], ent])
+    if k == 'trans':
+        T = r[3]
+        if T[0] == 'chain':
+            out += [['trans', r[1], r[2], x] for x in T[1]]
+            if len(T[1]) > 1:
+                out += [['trans', r[1], r[2], ['chain', T[1][:i] + T[1][i + 1:]]] for i in range(len(T[1]))]
+        elif T[0] in ('scale', 'offset', 'parallel') and len(T[1]) > 1:
+            out += [['trans', r[1], r[2], [T[0], T[1][:i] + T[1][i + 1:]]] for i in range(len(T[1]))]
+        if T[0] in ('scale', 'offset', 'parallel'):
+            out += [['trans', r[1], r[2], [T[0], [[c, ['c', tv[1]]] if tv[0] == 't' else [c, tv] for c, tv in T[1]]]]
+                    for _ in (0,) if any(tv[0] == 't' for _, tv in T[1])]
+    if k in ('getsubset',):
+        out.append(['subset', r[1], r[2]])
+    if k in ('fromrev', 'reversed'):
+        out.append(['rev', r[1]])
+    if depth < 6:
+        for pos, x in _children(r):
+            out += [_with_child(r, pos, y) for y in _reductions(x, depth + 1)]
+    return out
+
+
+def _pow2_quarters(d):
+    n = d / Q4
+    return n == 0 or (n.denominator == 1 and n.numerator > 0 and n.numerator & (n.numerator - 1) == 0)
+
+
+def _exact_obs(obs):
+    """every number the implementation answered is a binary fraction with a small denominator (float arithmetic was
+    exact): a shrunk case must not fail merely because it left the exactly representable inputs"""
+    def ok(x):
+        if isinstance(x, str):
+            try:
+                q = F(x)
+            except (ValueError, ZeroDivisionError):
+                return True
+            return q.denominator & (q.denominator - 1) == 0 and q.denominator <= 2 ** 24
+        if isinstance(x, dict):
+            return all(ok(v) for v in x.values())
+        if isinstance(x, (list, tuple)):
+            return all(ok(v) for v in x)
+        return True
+    return ok(obs)
+
+
+def _size(case):
+    return len(json.dumps(case, sort_keys=True))
+
+
+def _smaller(case):
+    import copy
+    out = []
+    k = case['kind']
+    def with_recipe(key, r2):
+        c = copy.deepcopy(case)
+        c[key] = r2
+        try:
+            d = _rdur(r2)
+        except Exception:
+            return None
+        if k in ('sample', 'dec'):
+            c['grid'] = [t for t in c['grid'] if F(t) <= d] or ['0']
+        if k == 'hist':
+            for op in c['ops']:
+                if op[0] in ('set', 'new', 'tmp'):
+                    op[2] = [t for t in op[2] if F(t) <= d] or ['1/16']
+            c['dur'] = fs(d)
+        return c
+    for key in ('r', 'r1', 'r2'):
+        if key in case:
+            for r2 in _reductions(case[key]):
+                c = with_recipe(key, r2)
+                if c is not None:
+                    out.append(c)
+    if k in ('sample', 'dec'):
+        g = case['grid']
+        if len(g) > 1:
+            out += [dict(case, grid=[t]) for t in g]
+            out += [dict(case, grid=g[:len(g) // 2]), dict(case, grid=g[len(g) // 2:])]
+            out += [dict(case, grid=g[:i] + g[i + 1:]) for i in range(len(g))]
+        if len(case['chans']) > 1:
+            out += [dict(case, chans=[c]) for c in case['chans']]
+    if k == 'hist':
+        ops = case['ops']
+        for i in range(len(ops)):
+            rest = ops[:i] + ops[i + 1:]
+            ok, have = True, set()
+            for op in rest:
+                if op[0] in ('set', 'new'):
+                    have.add(op[1])
+                elif op[0] == 'call' and op[2] not in have:
+                    ok = False
+            if ok and any(op[0] in ('call', 'tmp') for op in rest):
+                out.append(dict(case, ops=rest))
+        for i, op in enumerate(ops):
+            if op[0] in ('set', 'new', 'tmp') and len(op[2]) > 1:
+                for keep in (op[2][:1], op[2][-1:], op[2][:len(op[2]) // 2]):
+                    o2 = list(op)
+                    o2[2] = keep
+                    out.append(dict(case, ops=ops[:i] + [o2] + ops[i + 1:]))
+            if op[0] == 'call' and len(op) > 4:
+                out.append(dict(case, ops=ops[:i] + [op[:4]] + ops[i + 1:]))
+        for flag, val in (('arr', 'plain'), ('ro', False)):
+            if case.get(flag) not in (None, val):
+                out.append(dict(case, **{flag: val}))
+    if case.get('share'):
+        out.append(dict(case, share=False))
+    seen, res = set(), []
+    for c in sorted(out, key=_size):
+        h = vlib.canonical_hash(c)
+        if h not in seen and _size(c) < _size(case):
+            seen.add(h)
+            res.append(c)
+    return res
+
+
+def _spec_failures(cases, ctx, tag):
+    """(observations, indices on which the property fails: check_spec evaluated in Coq on the implementation's answer, and
+    py_spec).  When the Coq side cannot be evaluated (broken build) only py_spec and crashes count."""
+    obs = []
+    for c in cases:
+        try:
+            obs.append(run_impl(c))
+        except Exception as e:     # noqa
+            obs.append({'crash': '%s: %s' % (type(e).__name__, str(e)[:200])})
+    bad = set(i for i, o in enumerate(obs) if 'crash' in o or 'hang' in o)
+    bad |= set(i for i, (c, o) in enumerate(zip(cases, obs)) if i not in bad and py_spec(c, o))
+    try:
+        terms = [to_coq(c, o) for c, o in zip(cases, obs)]
+        wd = os.path.join((ctx or {}).get('workdir') or os.path.join(vlib.CASES, 'C08.search'), tag)
+        res = vlib.run_coq_cases(wd, CORR_IMPORTS, [CHECK_SPEC], terms, shard=SHARD)
+        bad |= set(res[CHECK_SPEC])
+    except RuntimeError:
+        pass
+    return obs, sorted(bad)
+
+
+def shrink(case, obs, ctx):
+    """a smaller case on which the property still fails in the same way (same classification, crash stays crash)"""
+    cur, cur_obs = case, obs
+    cls = classify(case, obs)
+    crashed = 'crash' in obs or 'hang' in obs
+    exact = _exact_obs(obs)
+    for rnd in range(8):
+        cands = _smaller(cur)[:70]
+        if not cands:
+            break
+        o, bad = _spec_failures(cands, ctx, 'shrink%d' % rnd)
+        bad = [i for i in bad if classify(cands[i], o[i]) == cls and (('crash' in o[i] or 'hang' in o[i]) == crashed)
+               and (cur['kind'] == 'dec' or not exact or _exact_obs(o[i]))]
+        if not bad:
+            break
+        i = min(bad, key=lambda j: _size(cands[j]))
+        cur, cur_obs = cands[i], o[i]
+    return cur, cur_obs
+
+
 def search_failing(ctx, broken):
-    return None
+    """an input on which the PROPERTY itself fails on the implementation (not merely model != implementation), preferably
+    near ctx['near'] (the case on which model and implementation disagree): the same recipe on other grids / as a
+    history / with shared objects, smaller recipes, then fresh random cases of every family"""
+    import copy
+    import random
+    rng = ctx.get('rng') or random.Random(0)
+    near = ctx.get('near')
+    cands = []
+    if near is not None and ('r' in near or 'r1' in near):
+        r = near.get('r') or near['r1']
+        try:
+            dur, chans = _rdur(r), sorted(c for c in _rchannels(r) if c < len(CH))
+        except Exception:
+            dur, chans = None, None
+        cands.append(near)
+        if dur is not None and chans and dur >= Q4:
+            gs = grids_for(rng, dur)
+            for gk in ('off', 'on', 'end'):
+                for share in (False, True):
+                    cands.append({'kind': 'sample', 'grid_kind': gk, 'r': r, 'grid': [fs(t) for t in gs[gk]], 'chans': chans,
+                                  'share': share})
+            n16 = int(dur * 16)
+            for t in sorted({dur - F(1, 16), F(1, 16), dur / 2 + F(1, 16)}):
+                if 0 <= t <= dur:
+                    cands.append({'kind': 'sample', 'grid_kind': 'sparse', 'r': r, 'grid': [fs(t)], 'chans': chans, 'sparse': 'late1'})
+            cands.append({'kind': 'sample', 'grid_kind': 'off', 'r': r, 'grid': [fs(i * F(1, 16)) for i in range(n16) if i % 4],
+                          'chans': chans})
+            if n16 > 4:
+                for style in ('tmp', 'realloc', 'outreuse', 'query', 'mixed'):
+                    for share in (False, True):
+                        cands.append(dict(gen_alias_history(rng, dur, chans, style), r=r, share=share))
+                cands.append({'kind': 'hist', 'r': r, 'ops': gen_history(rng, dur, chans), 'dur': fs(dur)})
+            cands.append({'kind': 'eq', 'r1': r, 'r2': r})
+            cands.append({'kind': 'eq', 'r1': r, 'r2': flip_opt(r, True)})
+        cands += _smaller(near)[:40]
+    fresh = gen_cases(random.Random(rng.randrange(1 << 30)), 'quick', ctx)
+    rng.shuffle(fresh)
+    cands += fresh[:(350 if near is not None else 600)]
+    obs, bad = _spec_failures(cands, ctx, 'search')
+    known = vlib.load_known_findings()[0].get(PID, {})
+    bad = [i for i in bad if classify(cands[i], obs[i]) not in known and (cands[i]['kind'] == 'dec' or _exact_obs(obs[i]))]
+    if not bad:
+        return None
+    i = min(bad, key=lambda j: _size(cands[j]))
+    c, o = shrink(cands[i], obs[i], ctx)
+    why = py_spec(c, o) or ('crash: %s' % str(o.get('crash'))[:200] if 'crash' in o else
+                            'the specification oracle (check_spec: channels / duration / every sample = denotation of the plain '
+                            'composite / reported constants) rejects what the implementation answers on this input')
+    return c, o, why
